@@ -7,6 +7,8 @@ import (
 	"strings"
 	"unsafe"
 
+	"github.com/fxamacker/circlehash"
+	"github.com/zeebo/blake3"
 	"golang.org/x/tools/go/ssa"
 
 	"vsym/sym"
@@ -80,6 +82,32 @@ func (w *Worker) findIntrinsic(fn *ssa.Function) intrinsic {
 			return fr.w.tb.Const(64, h|1)
 		}
 	}
+	// real hash functions on concrete inputs: computed by the real libraries
+	// linked into the engine (digests of byte-level keys are then concrete)
+	switch name {
+	case "github.com/fxamacker/circlehash.Hash64":
+		return func(fr *frame, a []value) value {
+			msg, ok := concreteBytes(a[0])
+			seed := a[1].(T)
+			if !ok || !seed.IsConst() {
+				fr.w.unsupported("circlehash.Hash64 on symbolic input (use a harness digester)")
+			}
+			return fr.w.tb.Const(64, circlehash.Hash64(msg, seed.V))
+		}
+	case "github.com/zeebo/blake3.Sum256":
+		return func(fr *frame, a []value) value {
+			msg, ok := concreteBytes(a[0])
+			if !ok {
+				fr.w.unsupported("blake3.Sum256 on symbolic input (use a harness digester)")
+			}
+			sum := blake3.Sum256(msg)
+			out := make(array, 32)
+			for i := range out {
+				out[i] = fr.w.tb.Const(8, uint64(sum[i]))
+			}
+			return out
+		}
+	}
 	if fn.Pkg != nil {
 		switch fn.Pkg.Pkg.Path() {
 		case "github.com/fxamacker/circlehash", "github.com/zeebo/blake3", "lukechampine.com/blake3":
@@ -102,6 +130,22 @@ var bestEffortInitPkgs = map[string]bool{
 	"io":                           true,
 	"errors":                       true,
 	"encoding/binary":              true,
+}
+
+func concreteBytes(v value) ([]byte, bool) {
+	s, ok := v.([]value)
+	if !ok {
+		return nil, false
+	}
+	out := make([]byte, len(s))
+	for i, e := range s {
+		t, ok := e.(T)
+		if !ok || !t.IsConst() {
+			return nil, false
+		}
+		out[i] = byte(t.V)
+	}
+	return out, true
 }
 
 func str(v value) string {
